@@ -319,6 +319,48 @@ def run(ctx):
             for f in os.listdir(tmp):
                 os.remove(os.path.join(tmp, f))
             os.remove(refp)
+        # ------------------------------------------------ relative paths, in a working directory the process moved to after
+        # tdda was imported (as a test that changes directory does): the files the message names are the files that exist
+        for it in range(12 if ctx.quick else 200):
+            sub = os.path.join(base, 'moved%d' % it)
+            os.makedirs(os.path.join(sub, 'reltmp'))
+            here = os.getcwd()
+            os.chdir(sub)
+            try:
+                rt3, Failed3 = make_reftest('reltmp')
+                kind_ = rng.choice(['string', 'textfile', 'binary'])
+                with open('relref.txt', 'wb') as f_:
+                    f_.write(b'alpha\nbeta\n')
+                with open('relact.txt', 'wb') as f_:
+                    f_.write(b'alpha\nBETA\n')
+                case = {'kind': 'relative paths after a change of directory', 'assertion': kind_}
+                ctx.count(('REL', it, kind_), True)
+                ctx.bump('relative_paths.' + kind_)
+                try:
+                    if kind_ == 'string':
+                        rt3.assertStringCorrect('alpha\nBETA\n', 'relref.txt')
+                    elif kind_ == 'textfile':
+                        rt3.assertTextFileCorrect('relact.txt', 'relref.txt')
+                    else:
+                        rt3.assertBinaryFileCorrect('relact.txt', 'relref.txt')
+                    ctx.fail(case, 'a differing %s assertion passed' % kind_)
+                except Failed3 as ex:
+                    msg = str(ex)
+                    pairs = parse_pairs(msg)
+                    if not pairs:
+                        ctx.fail(case, 'failure message names no comparison command: %r' % msg[:300])
+                    for q, fa, fb in pairs:
+                        for p_ in (fa, fb):
+                            if not os.path.exists(p_):
+                                ctx.fail(case, 'the message names %s, which does not exist (working directory %s)' % (p_, sub))
+                            elif os.path.dirname(os.path.realpath(p_)) not in (os.path.realpath(sub), os.path.realpath(os.path.join(sub, 'reltmp'))):
+                                ctx.fail(case, 'the message names %s, outside the working directory and its temporary directory' % p_)
+                written = sorted(os.listdir('.'))
+                if written != ['relact.txt', 'relref.txt', 'reltmp']:
+                    ctx.fail(case, 'files written outside the temporary directory: %r' % written)
+            finally:
+                os.chdir(here)
+                shutil.rmtree(sub, ignore_errors=True)
         # ------------------------------------------------ the actual file itself lives in the temporary directory
         # (a program under test that writes its output there), under names like the ones the library uses
         nt = 120 if ctx.quick else 2500
